@@ -7,6 +7,7 @@ imported.  Anything outside the subset raises Unsupported (-> ANALYSIS-ERROR).""
 from __future__ import annotations
 
 import ast
+import collections
 import itertools
 
 from .core import AnalysisError
@@ -238,7 +239,7 @@ class Interp:
                 raise _Continue()
             if isinstance(st, ast.For):
                 it = self.ev(st.iter, env)
-                if not isinstance(it, (tuple, list, dict, set, frozenset, str, range, type({}.items()), type({}.keys()), type({}.values()), zip, enumerate)) and not hasattr(it, '__mock_iter__') and not hasattr(it, '__next__'):
+                if not isinstance(it, (tuple, list, dict, set, frozenset, str, range, type({}.items()), type({}.keys()), type({}.values()), zip, enumerate, collections.deque)) and not hasattr(it, '__mock_iter__') and not hasattr(it, '__next__'):
                     raise self.fail(f'loop over non-concrete value {it!r}')
                 if hasattr(it, '__next__'):
                     seq = itertools.islice(it, 0, 201)          # lazily: a `break` must leave the rest unconsumed
